@@ -10,7 +10,7 @@
 From Coq Require Import ZArith List String Bool Reals.
 From Flocq Require Import Core.
 From Hexital Require Import Base.Prelude Base.Num Model.Manager Model.Candle Model.Readings Model.Engine
-  Inst.RealInst Spec.Steppers Proofs.SpecGeneric Proofs.SpecReal Proofs.StructProofs Proofs.StochProofs.
+  Inst.RealInst Spec.Steppers Proofs.SpecGeneric Proofs.SpecReal Proofs.StructProofs Proofs.StochProofs Proofs.TsiProofs.
 Import ListNotations.
 Local Open Scope string_scope.
 Local Open Scope R_scope.
@@ -132,3 +132,30 @@ Theorem C10_stochastic_range :
   exists (s : R) (k d : val ROps), v = VDict [("stoch", @VNum ROps s); ("k", k); ("d", d)] /\ 0 <= s <= 100.
 Proof. exact stoch_range. Qed.
 Print Assumptions C10_stochastic_range.
+
+(* TSI = 100 * EMA(EMA(m)) / EMA(EMA(|m|)): in [-100, 100] because an EMA over a series
+   dominated by another stays dominated - at the seed, at every recurrence step, through the
+   rounding of every stored stage - so |numerator| <= denominator by induction over the two
+   smoothing stages *)
+Theorem C10_tsi_seed_dominated :
+  forall (p : Z) (sm : R) (nd : Z) (s1 s2 : state ROps) (x1 x2 : R),
+  (0 < p)%Z -> s_prev ROps s1 = None -> s_prev ROps s2 = None ->
+  full ROps p (push ROps p x1 (s_buf ROps s1)) = true -> full ROps p (push ROps p x2 (s_buf ROps s2)) = true ->
+  Forall2 (fun u v => Rabs u <= v) (push ROps p x1 (s_buf ROps s1)) (push ROps p x2 (s_buf ROps s2)) ->
+  exists r1 r2 s1' s2', ema_step ROps p sm nd s1 x1 = Ok (VNum r1, s1') /\ ema_step ROps p sm nd s2 x2 = Ok (VNum r2, s2') /\
+    Rabs r1 <= r2.
+Proof. exact ema_seed_dominated. Qed.
+Print Assumptions C10_tsi_seed_dominated.
+
+Theorem C10_tsi_step_dominated :
+  forall (p : Z) (sm : R) (nd : Z) (s1 s2 : state ROps) (x1 x2 p1 p2 : R),
+  (0 < p)%Z -> 0 < sm <= IZR p + 1 -> s_prev ROps s1 = Some p1 -> s_prev ROps s2 = Some p2 ->
+  Rabs x1 <= x2 -> Rabs p1 <= p2 ->
+  exists r1 r2 s1' s2', ema_step ROps p sm nd s1 x1 = Ok (VNum r1, s1') /\ ema_step ROps p sm nd s2 x2 = Ok (VNum r2, s2') /\
+    Rabs r1 <= r2.
+Proof. exact ema_step_dominated. Qed.
+Print Assumptions C10_tsi_step_dominated.
+
+Theorem C10_tsi_ratio_range : forall s a : R, Rabs s <= a -> 0 < a -> -100 <= 100 * (s / a) <= 100.
+Proof. exact tsi_ratio_range. Qed.
+Print Assumptions C10_tsi_ratio_range.
